@@ -159,7 +159,10 @@ impl Link {
             let d = &mut l.dirs[dir];
             let items: Vec<Item> = d.ready.drain(..).collect();
             d.consumed += items.len() as u64;
-            (items, d.writer_waker.take())
+            // (room was made only if something was taken out: a wake-up on every call would keep a sender that is
+            // waiting for room runnable for ever, and the canonical schedule polls runnable tasks before it delivers)
+            let w = if items.is_empty() { None } else { d.writer_waker.take() };
+            (items, w)
         };
         if let Some(w) = w {
             w.wake();
